@@ -45,6 +45,9 @@ type c16World struct {
 	issuerGone  map[string]bool
 	certs       []*c16Cert
 	autoRebuild bool
+	delta       bool // enable_delta (needs auto_rebuild)
+	reimports   int  // how often issuer i2 was deleted and imported again (new issuer id each time)
+	deltaRotatedSinceRevoke bool
 	rotatedSinceRevoke bool
 	lastCRLNum  map[string]*big.Int
 	lastCRLRaw  map[string]string
@@ -174,6 +177,28 @@ func (w *c16World) crl(issuer string) (*x509.RevocationList, string, error) {
 	return rl, string(raw), nil
 }
 
+// deltaCRL fetches the delta CRL of an issuer (nil = none published).
+func (w *c16World) deltaCRL(issuer string) (*x509.RevocationList, error) {
+	resp, err := w.s.Req(w.s.Root, logical.ReadOperation, "pki/issuer/"+issuer+"/crl/delta/der", nil)
+	if !OK(resp, err) || resp == nil {
+		return nil, fmt.Errorf("fetch: %s", ErrText(resp, err))
+	}
+	raw, _ := resp.Data[logical.HTTPRawBody].([]byte)
+	if len(raw) == 0 {
+		if sraw, ok := resp.Data[logical.HTTPRawBody].(string); ok {
+			raw = []byte(sraw)
+		}
+	}
+	if len(raw) == 0 {
+		return nil, nil
+	}
+	rl, perr := x509.ParseRevocationList(raw)
+	if perr != nil {
+		return nil, fmt.Errorf("parse: %v", perr)
+	}
+	return rl, nil
+}
+
 func (w *c16World) certStatusRevoked(c *c16Cert) (bool, error) {
 	resp, err := w.s.Req(w.s.Root, logical.ReadOperation, "pki/cert/"+c.serial, nil)
 	if !OK(resp, err) || resp == nil || resp.Data == nil {
@@ -237,11 +262,37 @@ func (w *c16World) check() (string, string) {
 			}
 		}
 		w.lastRevoked[n] = on
+		// delta CRL: while enabled, a revocation may be published on the delta instead of the
+		// complete CRL; a relying party consults both
+		onDelta := map[string]bool{}
+		if w.delta {
+			drl, derr := w.deltaCRL(n)
+			if derr != nil {
+				return "delta-crl-unavailable", fmt.Sprintf("delta CRL of issuer %s: %v", n, derr)
+			}
+			if drl != nil {
+				if err := drl.CheckSignatureFrom(iss); err != nil {
+					return "delta-crl-bad-signature", fmt.Sprintf("delta CRL of issuer %s does not verify under the issuer: %v", n, err)
+				}
+				for _, e := range drl.RevokedCertificateEntries {
+					onDelta[e.SerialNumber.String()] = true
+				}
+				if rl != nil && drl.Number != nil && rl.Number != nil && drl.Number.Cmp(rl.Number) < 0 {
+					return "delta-crl-older-than-complete", fmt.Sprintf("issuer %s: delta CRL number %v is below the complete CRL number %v", n, drl.Number, rl.Number)
+				}
+			}
+		}
 		for _, c := range w.certs {
 			if c.issuer != n || !c.revoked {
 				continue
 			}
 			mustBeListed := !w.autoRebuild || w.rotatedSinceRevoke
+			if w.delta && w.deltaRotatedSinceRevoke && !on[c.cert.SerialNumber.String()] && !onDelta[c.cert.SerialNumber.String()] {
+				return "revoked-serial-missing-from-crl-and-delta", fmt.Sprintf("serial %s (issuer %s) was reported revoked and the delta CRL was rotated since, but neither the complete nor the delta CRL lists it", c.serial, n)
+			}
+			if w.delta && onDelta[c.cert.SerialNumber.String()] {
+				continue // published on the delta
+			}
 			if mustBeListed && !on[c.cert.SerialNumber.String()] {
 				return "revoked-serial-missing-from-crl", fmt.Sprintf("serial %s (issuer %s) was reported revoked but the complete CRL served now does not list it (auto_rebuild=%v)", c.serial, n, w.autoRebuild)
 			}
@@ -280,7 +331,7 @@ type c16Op struct {
 func (o c16Op) String() string { return fmt.Sprintf("%s(%d)", o.Kind, o.Arg) }
 
 func c16Alphabet(ncerts int) []c16Op {
-	out := []c16Op{{"issue", 1}, {"issue", 2}, {"rotate", 0}, {"tidy", 0}, {"auto-rebuild", 1}, {"auto-rebuild", 0}, {"delete-issuer2", 0}, {"restart", 0}, {"reimport-issuer2", 0}}
+	out := []c16Op{{"issue", 1}, {"issue", 2}, {"rotate", 0}, {"tidy", 0}, {"auto-rebuild", 1}, {"auto-rebuild", 0}, {"delete-issuer2", 0}, {"restart", 0}, {"reimport-issuer2", 0}, {"delta", 1}, {"delta", 0}, {"rotate-delta", 0}}
 	for i := 0; i < ncerts; i++ {
 		out = append(out, c16Op{"revoke", i})
 	}
@@ -304,12 +355,37 @@ func (w *c16World) apply(t *testing.T, op c16Op) (string, string) {
 		if !c.revoked {
 			c.revoked = true
 			w.rotatedSinceRevoke = false
+			w.deltaRotatedSinceRevoke = false
 		}
 	case "rotate":
 		if ok, txt := w.rotate(); !ok {
 			return "rotate-failed", txt
 		}
 		w.rotatedSinceRevoke = true
+		w.deltaRotatedSinceRevoke = true
+	case "delta":
+		on := op.Arg == 1
+		data := map[string]interface{}{"enable_delta": on}
+		if on {
+			data["auto_rebuild"] = true
+		}
+		resp, err := w.s.Req(w.s.Root, logical.UpdateOperation, "pki/config/crl", data)
+		if !OK(resp, err) {
+			return "config-failed", ErrText(resp, err)
+		}
+		if on {
+			w.autoRebuild = true
+		}
+		w.delta = on
+		w.deltaRotatedSinceRevoke = false
+	case "rotate-delta":
+		resp, err := w.s.Req(w.s.Root, logical.ReadOperation, "pki/crl/rotate-delta", nil)
+		if !OK(resp, err) {
+			return "rotate-delta-failed", ErrText(resp, err)
+		}
+		if w.delta {
+			w.deltaRotatedSinceRevoke = true
+		}
 	case "tidy":
 		if err := w.tidy(); err != nil {
 			t.Fatalf("harness: tidy: %v", err)
@@ -320,6 +396,7 @@ func (w *c16World) apply(t *testing.T, op c16Op) (string, string) {
 		if !OK(resp, err) {
 			return "config-failed", ErrText(resp, err)
 		}
+		w.delta = false
 		if w.autoRebuild && !on {
 			// switching auto-rebuild off: the statement's "CRL served once revoke returned" applies to
 			// revocations made from now on; earlier ones need a rotate first
@@ -373,6 +450,7 @@ func (w *c16World) apply(t *testing.T, op c16Op) (string, string) {
 			return "rename-issuer-failed", ErrText(r2, e2)
 		}
 		w.issuerGone["i2"] = false
+		w.reimports++
 		delete(w.lastCRLNum, "i2") // a new issuer identity starts a new CRL series
 		delete(w.lastCRLRaw, "i2")
 		if ok, txt := w.rotate(); !ok {
@@ -397,7 +475,7 @@ func (w *c16World) canon() string {
 		parts = append(parts, fmt.Sprintf("%s:%v", c.issuer, c.revoked))
 	}
 	sort.Strings(parts)
-	return fmt.Sprintf("%v auto=%v rot=%v gone=%v", parts, w.autoRebuild, w.rotatedSinceRevoke, w.issuerGone["i2"])
+	return fmt.Sprintf("%v auto=%v rot=%v gone=%v delta=%v drot=%v reimports=%d", parts, w.autoRebuild, w.rotatedSinceRevoke, w.issuerGone["i2"], w.delta, w.deltaRotatedSinceRevoke, w.reimports)
 }
 
 func c16Replay(t *testing.T, img *Image, hist []c16Op, res *vout.Result) (*c16World, string, string) {
@@ -452,7 +530,8 @@ func TestVerifC16(t *testing.T) {
 			h []c16Op
 			n int
 		}
-		frontier := []node{{nil, 0}}
+		// two starting configurations: the default one and delta CRLs enabled (auto_rebuild + enable_delta)
+		frontier := []node{{nil, 0}, {[]c16Op{{"delta", 1}}, 0}}
 		for d := 0; d < depth; d++ {
 			var next []node
 			for _, nd := range frontier {
